@@ -1,5 +1,6 @@
 //! xrun <suite> [--tier quick|thorough] [--only <case-id>]
 //! Prints one JSON line per failing case and a final summary line; exit 0 = no failure, 1 = at least one failure, 2 = usage.
+mod asm_suite;
 mod bytecode_suite;
 mod compute_suite;
 mod graph_suite;
@@ -60,7 +61,7 @@ pub fn esc(s: &str) -> String {
 fn main() {
     let args: Vec<String> = std::env::args().collect();
     if args.len() < 2 {
-        eprintln!("usage: xrun <hash|graph|compute|bytecode|vmops|validate|codec|effects> [--tier quick|thorough] [--only <case>]");
+        eprintln!("usage: xrun <hash|graph|compute|bytecode|vmops|validate|codec|effects|asm> [--tier quick|thorough] [--only <case>]");
         std::process::exit(2);
     }
     let mut thorough = false;
@@ -105,13 +106,16 @@ fn main() {
         "validate" => "validate",
         "codec" => "codec",
         "effects" => "effects",
+        "asm" => "asm",
         _ => {
             eprintln!("unknown suite");
             std::process::exit(2);
         }
     };
     // panics of the code under test are caught and reported per case; keep stderr quiet
-    std::panic::set_hook(Box::new(|_| {}));
+    if std::env::var("XRUN_PANICS").is_err() {
+        std::panic::set_hook(Box::new(|_| {}));
+    }
     let ctx = Ctx { suite, thorough, only, cases: AtomicUsize::new(0), failures: AtomicUsize::new(0), printed: Default::default() };
     // a panic inside the code under test is a failure of the case that was running, not of the driver
     let r = std::panic::catch_unwind(std::panic::AssertUnwindSafe(|| match suite {
@@ -123,6 +127,7 @@ fn main() {
         "validate" => validate_suite::run(&ctx),
         "codec" => codec_suite::run(&ctx),
         "effects" => effects_suite::run(&ctx),
+        "asm" => asm_suite::run(&ctx),
         _ => unreachable!(),
     }));
     if r.is_err() {
